@@ -1,6 +1,7 @@
 package props
 
 import (
+	"sort"
 	"fmt"
 	"net"
 	"os"
@@ -72,7 +73,7 @@ func sameValue(a, b interface{}) bool {
 
 func (c13) Run(t *tape.Tape, tier Tier) *Result {
 	res := &Result{}
-	cfg := gen.Config{Alpha: gen.Regular, Swarm: false, MaxDepth: 5, MaxNodes: 11, Boost: gen.GMulti, BoostFactor: 5}
+	cfg := gen.Config{Alpha: gen.Regular, Swarm: false, MaxDepth: 5, MaxNodes: 11, Boost: gen.GMulti, BoostFactor: 5, Alias: true}
 	if tier == Thorough {
 		cfg.MaxDepth, cfg.MaxNodes = 6, 16
 	}
@@ -298,6 +299,7 @@ func (c13) Run(t *tape.Tape, tier Tier) *Result {
 	}
 	if !wide {
 		structural(want, "origin", b.MarkRefs)
+		verboseCountsBranches(res, want, "origin")
 	}
 	// nodes whose text does not depend on the rendering of a multi-cause node
 	multiFree := make([]bool, len(want))
@@ -373,6 +375,7 @@ func (c13) Run(t *tape.Tape, tier Tier) *Result {
 				}
 			}
 		}
+		verboseCountsBranches(res, got, where)
 		var explicit map[error]error // explicit marks of decoded values are not known to the model
 		_ = explicit
 		if !wide {
@@ -385,6 +388,52 @@ func (c13) Run(t *tape.Tape, tier Tier) *Result {
 	res.Nontrivial = maxBranches >= 2 && sim.Stats.Deliveries >= 1
 	res.Key = spec.Shape() + "|" + profKey
 	return res
+}
+
+// verboseCountsBranches: the numbered entries of a multi-cause node's %+v
+// contain the entries of every one of its branches, also when two branches
+// hold equal content or the very same object: each message token occurs in
+// the entries of the node at least as often as in the entries of all its
+// branches (rendered on their own) together.
+func verboseCountsBranches(res *Result, nodes []obs.Node, where string) {
+	entries := func(e error) string {
+		v := obs.Fmt("%+v", e)
+		if obs.IsPanic(v) {
+			return ""
+		}
+		if i := strings.IndexByte(v, '\n'); i >= 0 {
+			return v[i+1:]
+		}
+		return ""
+	}
+	for _, n := range nodes {
+		if n.Multi < 2 {
+			continue
+		}
+		whole := entries(n.Err)
+		if whole == "" {
+			continue
+		}
+		need := map[string]int{}
+		for _, br := range errbase.UnwrapMulti(n.Err) {
+			be := entries(br)
+			for _, tok := range tokenRE.FindAllString(be, -1) {
+				need[tok]++
+			}
+		}
+		var toks []string
+		for tok := range need {
+			toks = append(toks, tok)
+		}
+		sort.Strings(toks)
+		for _, tok := range toks {
+			if have := strings.Count(whole, tok); have < need[tok] {
+				res.add(Violation{Prop: "C13", Oracle: "verbose-shows-every-branch", Culprit: typeOfLayer(n),
+					Expected: fmt.Sprintf("token %s at least %d times in the entries of %%+v", tok, need[tok]), Observed: fmt.Sprintf("%d times: %s", have, short(whole)), Where: where + " node " + n.Path})
+				break
+			}
+		}
+	}
 }
 
 // structuralDecoded runs the tree-semantics checks on a decoded value. The
